@@ -97,7 +97,11 @@ func c14CaseMulti(root *vw.Rng, ci int) {
 	if r.Chance(2, 3) {
 		w.Restart, w.Leader = 0, 0
 	}
-	w.Round, w.MaxRounds = 12, 8
+	w.Round, w.MaxRounds = 12, 10
+	if r.Chance(2, 3) {
+		// one planned pack fault per round: (first|middle|last) x (one|several|all sources), every combination in turn
+		d.PackPlan = r.Perm(9)
+	}
 	d.RunRandom(w, vw.Scale(r.Range(90, 200), r.Range(150, 500)))
 	c14Complete(d)
 	seen := map[string]bool{}
